@@ -71,14 +71,26 @@ static long read_chunk_rows(const char* path, const uint8_t* buf, size_t n, int 
     else { exact = h_alloc(n); memcpy(exact, buf, n); rd = carquet_reader_open_buffer(exact, n, &ro, &err); }
     if (!rd) { free(exact); return -2; }
     long total = -1;
+    /* a BYTE_ARRAY value handed out is READ (every byte, through its pointer): a value that reaches past the page is then a
+     * sanitizer report and not a silent success */
+    int is_ba = 0, maxdef = 0;
+    { const carquet_schema_t* sc = carquet_reader_schema(rd); int ne = sc ? carquet_schema_num_elements(sc) : 0, k = -1;
+      for (int i = 0; i < ne; i++) { const carquet_schema_node_t* nd = carquet_schema_get_element(sc, i); if (!nd || !carquet_schema_node_is_leaf(nd)) continue;
+          if (++k == col) { is_ba = carquet_schema_node_physical_type(nd) == CARQUET_PHYSICAL_BYTE_ARRAY; maxdef = carquet_schema_node_repetition(nd) == CARQUET_REPETITION_REQUIRED ? 0 : 1; } } }
+    volatile unsigned sink_sum = 0;
     carquet_column_reader_t* cr = carquet_reader_get_column(rd, rg, col, &err);
     if (cr) {
         total = 0;
         for (int it = 0; it < 10000; it++) {
             uint8_t vals[16 * 64]; int16_t d[64], r[64];
+            memset(vals, 0, sizeof vals);
+            for (int q = 0; q < 64; q++) d[q] = (int16_t)maxdef;
             int64_t got = carquet_column_read_batch(cr, vals, 64, d, r);
             if (got < 0) { total = -1; break; }
             if (got == 0) { if (carquet_column_remaining(cr) > 0) total = -1; break; }
+            if (is_ba) { const carquet_byte_array_t* a = (const carquet_byte_array_t*)vals; int64_t nn = 0;
+                for (int64_t q = 0; q < got && q < 64; q++) if (d[q] == maxdef) nn++;
+                for (int64_t q = 0; q < nn; q++) if (a[q].length > 0 && a[q].length < (1 << 24)) for (int32_t b = 0; b < a[q].length; b++) sink_sum += a[q].data[b]; }
             total += got;
         }
         carquet_column_reader_free(cr);
@@ -258,10 +270,29 @@ static uint8_t* write_lz4_tail(hctx* h, size_t* n, int variant) {
 /* ALL single-bit modifications of the page body of one small LZ4 / LZ4_RAW file, read without verification in ONE child (buffer
  * mode, exact-size copy): the child announces each bit on a pipe before it reads, so a crash names the bit.
  *   pglz4 variant=<v> | bits=<flips tried> bad_bit=<first bit whose read crashed, -1 none> rc=<child status> p_off_safe=0/1 */
-static void lz4_all_bits(hctx* h, int variant) {
-    size_t n; uint8_t* base = write_lz4_tail(h, &n, variant);
+/* kind 1: one REQUIRED BYTE_ARRAY column, PLAIN, uncompressed, a handful of short values: every bit of the page (length
+ * prefixes included) flipped, read through stdio, where the page body sits in a heap block of exactly its size */
+static uint8_t* write_ba_plain(hctx* h, size_t* n, int variant) {
+    char path[128]; snprintf(path, sizeof path, "/tmp/verif_pg_%d_b.parquet", (int)getpid());
+    int nv = 3 + variant % 5;
+    carquet_byte_array_t vals[8]; uint8_t pool[8][12];
+    for (int i = 0; i < nv; i++) { int len = 1 + (int)((unsigned)(variant * 3 + i * 5) % 9); for (int b = 0; b < len; b++) pool[i][b] = (uint8_t)h_next(h); vals[i].data = pool[i]; vals[i].length = len; }
+    carquet_error_t err; memset(&err, 0, sizeof err);
+    carquet_schema_t* sc = carquet_schema_create(&err);
+    (void)!carquet_schema_add_column(sc, "s", CARQUET_PHYSICAL_BYTE_ARRAY, NULL, CARQUET_REPETITION_REQUIRED, 0);
+    carquet_writer_options_t wo; carquet_writer_options_init(&wo); wo.compression = CARQUET_COMPRESSION_UNCOMPRESSED;
+    carquet_writer_t* w = carquet_writer_create(path, sc, &wo, &err);
+    (void)!carquet_writer_write_batch(w, 0, vals, nv, NULL, NULL);
+    (void)!carquet_writer_close(w); carquet_schema_free(sc);
+    FILE* f = fopen(path, "rb"); fseek(f, 0, SEEK_END); long sz = ftell(f); fseek(f, 0, SEEK_SET);
+    uint8_t* b = h_alloc((size_t)sz); if (fread(b, 1, (size_t)sz, f) != (size_t)sz) sz = 0; fclose(f); unlink(path);
+    *n = (size_t)sz; return b;
+}
+static void lz4_all_bits(hctx* h, int variant, int kind) {
+    size_t n; uint8_t* base = kind ? write_ba_plain(h, &n, variant) : write_lz4_tail(h, &n, variant);
     pageloc pl[8]; int np = find_pages(base, n, pl, 8);
-    fprintf(h->out, "pglz4 variant=%d", variant); h_call(h);
+    char dpath[128]; snprintf(dpath, sizeof dpath, "/tmp/verif_pg_%d_scan.parquet", (int)getpid());
+    fprintf(h->out, "pglz4 variant=%d kind=%d", variant, kind); h_call(h);
     if (np < 1 || pl[0].len == 0 || pl[0].len > 200) { fprintf(h->out, " | skipped=1 triv=1\n"); h->n_lines++; free(base); return; }
     int fds[2]; if (pipe(fds) != 0) { fprintf(h->out, " | skipped=1 triv=1\n"); h->n_lines++; free(base); return; }
     fflush(NULL);
@@ -272,7 +303,8 @@ static void lz4_all_bits(hctx* h, int variant) {
         for (long b = 0; b < (long)pl[0].len * 8; b++) {
             memcpy(dmg, base, n); dmg[pl[0].off + pl[0].hs + (size_t)b / 8] ^= (uint8_t)(1u << (b % 8));
             if (write(fds[1], &b, sizeof b) != (ssize_t)sizeof b) _exit(3);
-            (void)read_chunk_rows("/nonexistent", dmg, n, 2, 0, pl[0].rg, pl[0].col);
+            if (kind) { FILE* df = fopen(dpath, "wb"); if (df) { fwrite(dmg, 1, n, df); fclose(df); } (void)read_chunk_rows(dpath, dmg, n, 0, 0, pl[0].rg, pl[0].col); }
+            else (void)read_chunk_rows("/nonexistent", dmg, n, 2, 0, pl[0].rg, pl[0].col);
         }
         _exit(0);
     }
@@ -282,11 +314,12 @@ static void lz4_all_bits(hctx* h, int variant) {
     int st = 0; waitpid(pid, &st, 0);
     int rc = WIFEXITED(st) ? WEXITSTATUS(st) : 1000 + WTERMSIG(st);
     fprintf(h->out, " | bits=%ld bad_bit=%ld rc=%d p_off_safe=%d\n", (long)pl[0].len * 8, rc == 0 ? -1 : last, rc, rc == 0);
-    h->n_lines++; free(base);
+    h->n_lines++; free(base); unlink(dpath);
 }
 
 static void gen_pagecrc(hctx* h) {
-    for (int v = 0; v < (h->thorough ? 64 : 24); v++) lz4_all_bits(h, v);
+    for (int v = 0; v < (h->thorough ? 64 : 24); v++) lz4_all_bits(h, v, 0);
+    for (int v = 0; v < (h->thorough ? 20 : 6); v++) lz4_all_bits(h, v, 1);
     for (int t = 0; t < (h->thorough ? 8 : 3); t++) { size_t n; uint8_t* b = write_lz4_tail(h, &n, t + (int)h_below(h, 8)); g_pg_codec = 5; damage_head_bits(h, b, n, 80); g_pg_codec = 0; free(b); }
     /* every single bit of the first bytes of a page body: the codec's own framing (length preamble, first element tag) */
     for (int t = 0; t < 3; t++) { size_t n; uint8_t* b = write_snappy_literal(h, &n, t); g_pg_codec = 1; damage_head_bits(h, b, n, 3); g_pg_codec = 0; free(b); }
